@@ -117,7 +117,10 @@ def main():
                 prems = [rename(p, job['rename']) for p in prems]
                 concl = rename(concl, job['rename'])
             if job.get('extra') is not None:
-                prems = prems + [build(job['extra'])]
+                if job.get('extra_front'):
+                    prems = [build(job['extra'])] + prems
+                else:
+                    prems = prems + [build(job['extra'])]
             if job.get('concl_from_prems') is not None and prems:
                 concl = prems[job['concl_from_prems'] % len(prems)]
             res['argstr'] = Argument(concl, prems).argstr()
